@@ -277,6 +277,30 @@ def race_runs(ctx):
     return runs
 
 
+def race_on(ctx, args, files, what):
+    """one command under the race-detector build (supporting evidence: a detector, not a proof); returns 1 when it ran"""
+    import os
+    from .. import cli
+    exe = os.path.join(C.HARNESS, "bin", "inkfem_race")
+    env = dict(C.GOENV, CGO_ENABLED="1")
+    with C.Lock():
+        rc, out = C.sh(["go", "build", "-race", "-tags", "verif", "-o", exe, "."], cwd=C.REPO, env=env, timeout=900)
+    if rc != 0:
+        ctx.log("race-detector build not available here (%s): skipped" % out.strip()[-120:])
+        return 0
+    saved = cli.BIN
+    cli.BIN = exe
+    try:
+        r = cli.run(ctx, args, files=files, env={"GORACE": "halt_on_error=1"}, name="race", timeout=600)
+    finally:
+        cli.BIN = saved
+    msg = (r.stderr or "") + (r.stdout or "")
+    if "DATA RACE" in msg or "concurrent map" in msg:
+        ctx.violation("the race detector reports a data race in `inkfem %s` on %s: %s" % (" ".join(args), what, msg[msg.find("DATA RACE"):][:300].replace("\n", " | ")),
+                      {"args": args, "how": what, "report": msg[-3000:]})
+    return 1
+
+
 def many_bars(ctx):
     """a frame of 615 bars preprocessed with 1, 7 and all processors, its bars listed in the generated, the reversed and a rotated
     order: every bar of the definition is sliced, whichever order the lines come in and however many goroutines run at a time"""
